@@ -88,6 +88,12 @@ TNext ==
     /\ LET ev == Log[l] IN
        IF ~Has(ev, "e") THEN UNCHANGED cvars /\ Reject(<<"malformed">>)
        ELSE IF ev.e \in {"Setup", "End"} THEN UNCHANGED <<cvars, bad>>
+       ELSE IF ev.e = "Obs" THEN
+            \* general floats through amgcl_params_setf read back as the same float
+            /\ UNCHANGED cvars
+            /\ LET f == FailedOf(<< <<"no-exception", ~Has(ev, "exc")>>,
+                                    <<"ParamsReach:setf-float-roundtrip", Has(ev, "n") /\ Has(ev, "f32same") /\ ev.n = 8 /\ ev.f32same = ev.n>> >>)
+               IN  bad' = (IF f = <<>> THEN bad ELSE Append(bad, <<l, f>>))
        ELSE IF ev.e = "Begin" THEN
             /\ hs' = [s \in Slots |-> "absent"] /\ pm' = [p \in PSlots |-> NoMap] /\ ob' = [o \in OSlots |-> NoObj]
             /\ UNCHANGED bad
